@@ -177,6 +177,9 @@ func vbNondetMsgRanges(n int, lo, hi int) ([]*vbRange, []simpleTagRange) {
 func VerifLemma_C03F_ReservedRangeHandlers() {
 	np := verifNondetChoice(verifParam("NP")) + 1
 	nc := verifNondetChoice(verifParam("NC") + 1)
+	if sum := verifParam("SUM"); sum > 0 {
+		verifAssume(np+nc <= sum) // bound on the total number of ranges (the cost is a product over the ranges)
+	}
 	which := verifNondetChoice(3)
 	lo, hi := 1, bufprotosource.MessageRangeInclusiveMax
 	if which == 2 {
